@@ -47,6 +47,7 @@ var skipCallPrefixes = []string{"slog.", "log.", "fmt.Print", "metrics.", "util.
 func main() {
 	repo := flag.String("repo", "/repo", "")
 	set2 := flag.Bool("set2", false, "second operator set: sibling constants, swapped call arguments, copied field values")
+	set3 := flag.Bool("set3", false, "third operator set: forced / deleted branches, break↔continue, swapped statements, sibling fields, = → :=, SQL clause drops")
 	flag.Parse()
 	globs := flag.Args()
 	var files []string
@@ -61,6 +62,60 @@ func main() {
 	}
 	enc := json.NewEncoder(os.Stdout)
 	n := 0
+	// field name -> sibling field names of the same declared type in the same struct (syntactic)
+	siblings := map[string][]string{}
+	if *set3 {
+		all, _ := filepath.Glob(filepath.Join(*repo, "internal/*/*.go"))
+		for _, pat := range []string{"internal/*/*/*.go", "internal/*/*/*/*.go", "internal/*/*/*/*/*.go", "internal/*/*/*/*/*/*.go", "pkg/*/*.go"} {
+			m, _ := filepath.Glob(filepath.Join(*repo, pat))
+			all = append(all, m...)
+		}
+		for _, path := range all {
+			if strings.HasSuffix(path, "_test.go") || strings.HasSuffix(path, ".pb.go") {
+				continue
+			}
+			src, err := os.ReadFile(path)
+			if err != nil {
+				continue
+			}
+			fs := token.NewFileSet()
+			f, err := parser.ParseFile(fs, path, src, 0)
+			if err != nil {
+				continue
+			}
+			ast.Inspect(f, func(nd ast.Node) bool {
+				st, ok := nd.(*ast.StructType)
+				if !ok {
+					return true
+				}
+				byType := map[string][]string{}
+				for _, fl := range st.Fields.List {
+					tt := string(src[fs.Position(fl.Type.Pos()).Offset:fs.Position(fl.Type.End()).Offset])
+					for _, nm := range fl.Names {
+						byType[tt] = append(byType[tt], nm.Name)
+					}
+				}
+				for _, names := range byType {
+					if len(names) < 2 {
+						continue
+					}
+					for i, a := range names {
+						b := names[(i+1)%len(names)]
+						dup := false
+						for _, x := range siblings[a] {
+							if x == b {
+								dup = true
+							}
+						}
+						if !dup && len(siblings[a]) < 2 {
+							siblings[a] = append(siblings[a], b)
+						}
+					}
+				}
+				return true
+			})
+		}
+	}
 	for _, path := range files {
 		src, err := os.ReadFile(path)
 		if err != nil {
@@ -114,6 +169,68 @@ func main() {
 						if strings.HasSuffix(ft, ".Inc") || strings.HasSuffix(ft, ".Dec") || strings.HasSuffix(ft, ".Observe") || strings.Contains(ft, "WithLabelValues") {
 							return false
 						}
+					}
+					if *set3 {
+						switch x := nd.(type) {
+						case *ast.IfStmt:
+							if x.Cond != nil {
+								emit("cond→true", fn, x.Cond.Pos(), x.Cond.End(), "true")
+								emit("cond→false", fn, x.Cond.Pos(), x.Cond.End(), "false")
+								if x.Else != nil {
+									emit("delete else", fn, x.Body.End(), x.Else.End(), "")
+								}
+							}
+						case *ast.BranchStmt:
+							if x.Label == nil && x.Tok == token.BREAK {
+								emit("break→continue", fn, x.Pos(), x.End(), "continue")
+							} else if x.Label == nil && x.Tok == token.CONTINUE {
+								emit("continue→break", fn, x.Pos(), x.End(), "break")
+							}
+						case *ast.BlockStmt:
+							simple := func(st ast.Stmt) bool {
+								switch s := st.(type) {
+								case *ast.ExprStmt:
+									if call, ok := s.X.(*ast.CallExpr); ok {
+										ft := text(call.Fun.Pos(), call.Fun.End())
+										for _, p := range skipCallPrefixes {
+											if strings.HasPrefix(ft, p) {
+												return false
+											}
+										}
+										return true
+									}
+								case *ast.AssignStmt:
+									return true
+								case *ast.IfStmt:
+									return true
+								}
+								return false
+							}
+							for i := 0; i+1 < len(x.List); i++ {
+								a, b := x.List[i], x.List[i+1]
+								if simple(a) && simple(b) {
+									emit("swap stmts", fn, a.Pos(), b.End(), text(b.Pos(), b.End())+text(a.End(), b.Pos())+text(a.Pos(), a.End()))
+								}
+							}
+							for _, st := range x.List {
+								if as, ok := st.(*ast.AssignStmt); ok && as.Tok == token.ASSIGN && len(as.Lhs) <= 2 {
+									allId := true
+									for _, l := range as.Lhs {
+										if _, ok := l.(*ast.Ident); !ok {
+											allId = false
+										}
+									}
+									if allId && x != dd.Body {
+										emit("= → :=", fn, as.TokPos, as.TokPos+1, ":=")
+									}
+								}
+							}
+						case *ast.SelectorExpr:
+							for _, alt := range siblings[x.Sel.Name] {
+								emit("field "+x.Sel.Name+"→"+alt, fn, x.Sel.Pos(), x.Sel.End(), alt)
+							}
+						}
+						return true
 					}
 					if *set2 {
 						switch x := nd.(type) {
@@ -285,6 +402,34 @@ func main() {
 					}
 					base := bl.Pos()
 					body := bl.Value
+					if *set3 {
+						off := 0
+						for _, line := range strings.SplitAfter(body, "\n") {
+							t := strings.TrimSpace(line)
+							switch {
+							case strings.HasPrefix(t, "ORDER BY"):
+								emit("sql drop order", name, base+token.Pos(off), base+token.Pos(off+len(line)), "")
+							case strings.HasPrefix(t, "LIMIT"):
+								emit("sql drop limit", name, base+token.Pos(off), base+token.Pos(off+len(line)), "")
+							case regexp.MustCompile(`^[a-z_]+ = [^,]+,$`).MatchString(t):
+								emit("sql drop set-assign", name, base+token.Pos(off), base+token.Pos(off+len(line)), "")
+							}
+							off += len(line)
+						}
+						for _, pr := range [][2]string{{"$1", "$2"}, {"$2", "$3"}, {"$3", "$4"}} {
+							i1 := regexp.MustCompile(regexp.QuoteMeta(pr[0]) + `\b`).FindStringIndex(body)
+							i2 := regexp.MustCompile(regexp.QuoteMeta(pr[1]) + `\b`).FindStringIndex(body)
+							if i1 != nil && i2 != nil && i1[1] <= i2[0] {
+								emit("sql swap "+pr[0]+"/"+pr[1], name, base+token.Pos(i1[0]), base+token.Pos(i2[1]), pr[1]+body[i1[1]:i2[0]]+pr[0])
+							}
+						}
+						for _, col := range [][2]string{{"timeout", "expires_at"}, {"expires_at", "timeout"}, {"created_on", "completed_on"}, {"next_run_time", "last_run_time"}, {"root_promise_id", "id"}, {"process_id", "execution_id"}, {"execution_id", "process_id"}} {
+							for _, loc := range regexp.MustCompile(`\b`+col[0]+`\b`).FindAllStringIndex(body, -1) {
+								emit("sql col "+col[0]+"→"+col[1], name, base+token.Pos(loc[0]), base+token.Pos(loc[1]), col[1])
+							}
+						}
+						continue
+					}
 					// token swaps
 					for _, re := range []struct{ re, repl, op string }{
 						{`<=`, "<", "sql <=→<"}, {`>=`, ">", "sql >=→>"}, {` < `, " <= ", "sql <→<="}, {` > `, " >= ", "sql >→>="},
